@@ -444,7 +444,7 @@ Proof.
   - exists (upd_a a t (PPushL k v p) []). split; [|split; [apply frame_upd_a|]].
     { apply Inv_rephase; [exact Hi| | | |reflexivity].
       - rewrite Hv. cbn. lia.
-      - apply phase_ok_upd; [rewrite Hv; cbn; lia|]. rewrite <- Hv. now apply Inv_phase.
+      - apply phase_ok_upd; [rewrite Hv; cbn; lia|]. rewrite <- Hv. exact (Inv_phase _ _ _ t Hi).
       - now rewrite Hv. }
     rewrite view_upd_a. cbn [ptr_of]. apply IH; auto.
 Qed.
@@ -469,7 +469,7 @@ Proof.
   exists (upd_a a t (PPushL k v None) []). split; [|split; [apply frame_upd_a|]].
   { apply Inv_rephase; [exact Hi| | | |reflexivity].
     - rewrite Hv. cbn. lia.
-    - apply phase_ok_upd; [rewrite Hv; cbn; lia|]. rewrite <- Hv. now apply Inv_phase.
+    - apply phase_ok_upd; [rewrite Hv; cbn; lia|]. rewrite <- Hv. exact (Inv_phase _ _ _ t Hi).
     - now rewrite Hv. }
   rewrite view_upd_a. cbn [ptr_of]. apply safe_push_loop; auto.
 Qed.
@@ -501,7 +501,7 @@ Proof.
   exists (upd_a a t (PPopH k pCur) []). split; [|split; [apply frame_upd_a|]].
   { apply Inv_rephase; [exact Hi| | | |reflexivity].
     - rewrite Hv. cbn. lia.
-    - apply phase_ok_upd; [rewrite Hv; cbn; lia|]. rewrite <- Hv. now apply Inv_phase.
+    - apply phase_ok_upd; [rewrite Hv; cbn; lia|]. rewrite <- Hv. exact (Inv_phase _ _ _ t Hi).
     - now rewrite Hv. }
   rewrite view_upd_a. cbn [Conc.safe]. clear g a tr Hi Hv.
   (* validating load *)
@@ -576,7 +576,7 @@ Proof.
     + apply ptr_eqb_spec in E.
       exists (mkA (tl (stk a)) (atr a ++ [ELin t]) (set_ph (ph a) t (PPopG k n (val g n)))).
       split; [apply (Inv_pop_lp g a tr t k n nx); auto|]. split; [apply frame_set_ph|].
-      unfold view at 1; cbn [ph]. rewrite set_ph_same. cbn [Conc.safe].
+      unfold view; cbn [ph]. rewrite set_ph_same. cbn [Conc.safe].
       remember (val g n) as v eqn:Ev. clear g a tr Hi Hv E Ev.
       (* clear_links *)
       intros g a tr Hi Hv. unfold view in Hv. cbn [a_st_next fst snd].
@@ -616,7 +616,7 @@ Proof.
       exists (upd_a a t (PPopG k n v) []). split; [|split; [apply frame_upd_a|]].
       { apply Inv_rephase; [exact Hi| | | |reflexivity].
         - rewrite Hv. cbn. lia.
-        - apply phase_ok_upd; [rewrite Hv; cbn; lia|]. rewrite <- Hv. now apply Inv_phase.
+        - apply phase_ok_upd; [rewrite Hv; cbn; lia|]. rewrite <- Hv. exact (Inv_phase _ _ _ t Hi).
         - now rewrite Hv. }
       rewrite view_upd_a. cbn. exists n. reflexivity.
     + (* CAS failed: try again *)
